@@ -84,3 +84,31 @@ Proof.
   cbv zeta. split; [vm_compute; discriminate|]. split; [vm_compute; reflexivity|]. split; [vm_compute; reflexivity|].
   eexists. eexists. split; [vm_compute; reflexivity|]. split; [vm_compute; reflexivity|]. split; vm_compute; reflexivity.
 Qed.
+
+(* ---- the reading side as one statement, for files of any conforming writer ----
+   Header: any list of non-empty metadata blocks (application entries next to avro.schema and
+   avro.codec, any order, later entries win).  Schema document: any JSON tree the schema parser
+   accepts (key order, unknown attributes, primitives spelled as objects: C14).  Target: any Go
+   type the builder accepts for the parsed schema.  Blocks: any partition, each payload a
+   concatenation of arbitrary specification encodings of typed datums that fit the target.
+   ReadFile then reads the header, parses the schema, builds that codec, and delivers every
+   record in order with success.  [untext] is the JSON library's bytes -> tree layer. *)
+From Coq Require Import String.
+Require Import Avro.Model.Json Avro.Corr.Codec Avro.Proofs.HeaderGenP Avro.Proofs.PipelineP.
+Local Open Scope string_scope.
+Local Open Scope list_scope.
+Theorem C03_foreign_pipeline : forall (untext : bytes -> option json) decompress sync, len sync = 16 ->
+  forall (mb : list (list entry)) sj j g out c fuel blocks bfuel,
+  Forall block_ok mb ->
+  meta_get (set_blocks [] mb) (b "avro.schema") = Some sj ->
+  untext sj = Some j -> unmarshal j = Some g -> build_top g out = Some c ->
+  Forall (foreign_block_ok (classify g) c fuel (zero_of (top_type out)) decompress) blocks ->
+  (length blocks < bfuel)%nat ->
+  exists h body,
+    read_header (gen_header mb sync ++ concat (map (vb_bytes sync) blocks)) = Some (h, body) /\
+    h_sync h = sync /\ h_meta h = set_blocks [] mb /\
+    reader_codec untext h out = Some c /\
+    read_blocks decompress (rr c fuel (zero_of (top_type out))) (fun _ => None) bfuel sync 0 body
+      = (total blocks, FOk).
+Proof. exact foreign_pipeline. Qed.
+Print Assumptions C03_foreign_pipeline.
